@@ -18,6 +18,7 @@ replayed on the terminal oracle (harness/term.py) shows the printed lines (file 
 of the last display write.
 """
 import multiprocessing
+import os
 import re
 
 import lib_conc as LC
@@ -26,8 +27,10 @@ import term
 
 PROPERTY = "C11"
 
-# CODE VARIANT FLAGS — none.  Finding F22 (stale erase count) has no small repair and therefore no repaired
-# variant in the model: Props/C11.lean carries `live_screen_under_schedules_partial` and witnesses instead.
+# CODE VARIANT FLAGS — the value that matches TODAY's code in /repo (see `Cfg` in Model/Conc.lean)
+STOP_TAIL_UNLOCKED = int(os.environ.get("VERIF_C11_STOP_TAIL_UNLOCKED", "1"))   # 1: Progress.stop() erases a transient display and resets _live_render._shape AFTER releasing its lock
+# (Finding F22, the stale erase count, has no small repair and therefore no repaired variant in the model:
+#  Props/C11.lean carries `live_screen_under_schedules_partial` and witnesses instead.)
 
 NPROC = 16
 
@@ -50,7 +53,8 @@ def evaluate(scn, res):
         return ok
 
     chk(res.deadlock is None, "no_deadlock", f"no runnable thread: {res.deadlock}")
-    chk(not res.exc, "no_exception", "a thread raised " + ", ".join(f"{t}: {type(e).__name__}: {e}" for t, e in res.exc.items()))
+    chk(not res.exc, "no_exception", "a thread raised " + ", ".join(f"{t}: {type(e).__name__}: {e}" for t, e in res.exc.items()),
+        finding=classify_exc(scn, res.exc))
     chk(not res.unguarded, "write_under_console_lock", f"file.write without holding Console._lock: {res.unguarded[:2]}")
     chk(not res.lock_errors, "lock_mutual_exclusion", f"{res.lock_errors[:2]}")
     if res.deadlock is not None or res.exc:
@@ -124,10 +128,68 @@ def evaluate(scn, res):
                 stripped = re.sub(r"\x1b\[[0-9;?]*[A-Za-z]|\r", "", file_text)
                 chk(stripped == exp, "record_order", f"export_text {exp!r} differs from the file without its control sequences {stripped!r}")
 
+    # ---- start / stop are idempotent under races: one hook per display, pushed once, popped once
+    if scn.kind != "none":
+        depth, worst, hides, shows = 0, 0, 0, 0
+        for tid, kind, p in res.events:
+            if kind == "h+":
+                depth += 1
+            elif kind == "h-":
+                depth -= 1
+            elif kind == "w":
+                hides += p.count("\x1b[?25l")
+                shows += p.count("\x1b[?25h")
+            worst = max(worst, depth)
+            chk(depth >= 0, "hook_stack", f"render hook popped more often than pushed (event of thread {tid})")
+            # the cursor is hidden once per start that took effect, shown once per stop that took effect
+            chk(0 <= hides - shows <= 1, "cursor_hidden_once", f"{hides} hide-cursor / {shows} show-cursor writes so far (thread {tid})")
+        chk(worst <= 1, "hook_stack", f"{worst} render hooks installed at the same time for one display")
+        chk(res.hooks == (1 if res.started else 0), "hook_stack", f"after all threads finished: started={res.started}, {res.hooks} hooks installed")
+        want_depth = 1 if res.started else 0
+        chk(res.stdout_depth == want_depth and res.stderr_depth == want_depth, "io_redirected_once",
+            f"after all threads finished: started={res.started}, sys.stdout wrapped {res.stdout_depth}x, sys.stderr {res.stderr_depth}x")
+        if not res.started:
+            chk(res.after == "zzafter\n", "stopped_display_is_gone", f"a print after the display was stopped wrote {res.after!r}")
+            chk(hides == shows, "cursor_visible_after_stop", f"{hides} hide-cursor but {shows} show-cursor writes")
+        else:
+            chk(isinstance(res.after, str) and res.after.count("zzafter\n") == 1, "running_display_prints", f"a print under the running display wrote {res.after!r}")
+
     # ---- live screen for the order in which the writes reached the file
     if scn.kind != "none":
         out.append(screen_check(scn, res, all_chunks))
     return out
+
+
+def stop_tail_raced(events):
+    """Narrow classifier: some thread T popped the hook (`stop()`), released the progress lock, and before T's trailing
+    `restore_cursor()` / `_shape = None` another thread pushed the hook again or drew the display."""
+    for i, (t, kind, _p) in enumerate(events):
+        if kind != "h-":
+            continue
+        released = False
+        for u, k2, p2 in events[i + 1:]:
+            if u == t:
+                if k2 == "relL":
+                    released = True
+                elif k2 == "ws" and p2 is None:
+                    break            # end of T's stop()
+            elif released and k2 in ("h+", "ws", "pos"):
+                return True
+    return False
+
+
+def classify_exc(scn, excs):
+    """Narrow classifier: `TypeError: cannot unpack … NoneType` raised inside rich/live_render.py under a Progress whose
+    stop() (another thread) set `_live_render._shape = None` between the `is not None` test and the unpacking."""
+    import traceback
+
+    if scn.kind != "progress" or not excs:
+        return None
+    for e in excs.values():
+        tb = traceback.extract_tb(e.__traceback__)
+        if not (isinstance(e, TypeError) and "NoneType" in str(e) and tb and tb[-1].filename.endswith("live_render.py")):
+            return None
+    return "progress-shape-torn-read"
 
 
 def screen_check(scn, res, all_chunks):
@@ -191,7 +253,9 @@ def screen_check(scn, res, all_chunks):
     got = scr.trimmed_rows()
     ok = got == want
     finding = None
-    if not ok and stale is not None:
+    if not ok and scn.kind == "progress" and stop_tail_raced(res.events):
+        finding = "progress-stop-tail-vs-start"
+    elif not ok and stale is not None:
         finding = {"taller": "live-print-vs-taller-refresh", "shorter": "live-print-vs-shorter-refresh",
                    "stop": "live-print-vs-stop", "start": "live-print-vs-start"}[stale[0]]
     what = "" if ok else (f"screen rows {got} != printed lines (file order) + last frame {want}"
@@ -229,6 +293,17 @@ def fixed_scenarios():
                                        [[("S",), ("R",), P(0, 2), ("J",), ("X",)], [("G", 3), P(1, 1)], [("G", 3), ("U", ["H1"], True)]], npre=3), False))
     out.append(("live-start-stop", LC.Scn("live", 30, 8, False, False, "ellipsis", ["G1", "G2"],
                                           [[("S",), ("R",), ("X",)], [P(1, 0), P(1, 1)]]), False))
+    # start() / stop() raced by several threads: exactly one of them takes effect
+    out.append(("live-start-race", LC.Scn("live", 30, 8, False, False, "ellipsis", ["G1"],
+                                          [[("S",), ("R",), ("J",), ("X",)], [("S",), ("R",)], [("S",)]]), False))
+    out.append(("live-stop-race", LC.Scn("live", 30, 8, True, True, "ellipsis", ["G1", "G2"],
+                                         [[("S",), ("R",), ("X",)], [("G", 2), ("X",), P(1, 2)], [("G", 2), ("X",)]], npre=2), False))
+    out.append(("progress-start-race", LC.Scn("progress", 30, 8, False, False, "visible", ["a"],
+                                              [[("S",), ("J",), ("X",)], [("S",), P(1, 1)], [("S",)]]), False))
+    out.append(("progress-stop-vs-start", LC.Scn("progress", 30, 8, False, True, "visible", ["a"],
+                                                 [[("S",), ("X",)], [("S",), P(1, 1)]]), False))
+    out.append(("progress-stop-race", LC.Scn("progress", 30, 8, False, True, "visible", ["a", "b"],
+                                             [[("S",), ("X",)], [("G", 1), ("X",), P(1, 2)], [("G", 1), ("X",), ("S",)]], npre=1), False))
     return out
 
 
@@ -260,6 +335,18 @@ def random_scenario(rng, stable=None):
                     prog.append(P(t, i))
             progs.append(prog)
         return LC.Scn(kind, width, height, record, transient, "ellipsis", [], progs), True
+    if kind == "progress" and not stable:
+        # threads start / stop the progress display themselves
+        init = ["a", "b"][: rng.randint(1, 2)]
+        progs = []
+        for t in range(n):
+            prog = []
+            for i in range(rng.randint(1, 3)):
+                r = rng.random()
+                prog.append(P(t, i) if r < 0.3 else (("R",) if r < 0.4 else (("V", rng.randrange(len(init)), 1) if r < 0.5 else
+                                                                          (("S",) if r < 0.8 else ("X",)))))
+            progs.append(prog)
+        return LC.Scn(kind, width, height, record, transient, "visible", init, progs), False
     if kind == "progress":
         init = ["a", "b"][: rng.randint(1, 2)]
         progs = [[("S",), ("J",), ("X",)]]
@@ -304,7 +391,7 @@ def random_scenario(rng, stable=None):
 
 # ------------------------------------------------------------------------------------------------ workers
 def _record(scn, res, stable, label):
-    req = ["conc_run", scn.enc_cfg(), scn.enc_init(), scn.enc_progs(), LC.enc_events(res.events)]
+    req = ["conc_run", scn.enc_cfg(STOP_TAIL_UNLOCKED), scn.enc_init(), scn.enc_progs(), LC.enc_events(res.events)]
     if res.deadlock is not None or res.exc:
         exp = None
     else:
@@ -343,6 +430,34 @@ def _subtree_task(args):
     out = []
     for _prefix, r in S.explore(lambda ch: _R(LC.run_real(scn, ch)), bound, max_runs=max_runs, start=start):
         out.append(_record(scn, r.res, stable, "explore:" + name))
+    return out
+
+
+def probe_scenarios():
+    """(name, scenario, thread to preempt, file): line-granularity probes — the thread is preempted at EVERY executed line of
+    the file in turn, the other threads then run as far as they can, then it finishes (complete for one such preemption)."""
+    P = lambda t, i: ("P", [mk(t, i)], "seg")
+    return [
+        ("progress-print-vs-stop", LC.Scn("progress", 30, 8, False, False, "visible", ["a"],
+                                          [[("S",)], [("G", 1), P(1, 1)], [("G", 1), ("X",)]], npre=1), 1, "rich/live_render.py"),
+        ("progress-refresh-vs-stop", LC.Scn("progress", 30, 8, False, True, "visible", ["a", "b"],
+                                            [[("S",)], [("G", 1), ("R",)], [("G", 1), ("X",)]], npre=1), 1, "rich/live_render.py"),
+        ("live-print-vs-stop", LC.Scn("live", 30, 8, False, False, "ellipsis", ["G1", "G2"],
+                                      [[("S",), ("R",)], [("G", 2), P(1, 1)], [("G", 2), ("X",)]], npre=2), 1, "rich/live_render.py"),
+        ("live-print-vs-update", LC.Scn("live", 30, 8, False, False, "ellipsis", ["G1", "G2"],
+                                        [[("S",), ("R",), ("J",), ("X",)], [("G", 2), P(1, 1)], [("G", 2), ("U", ["H1", "H2"], True)]], npre=2), 1, "rich/live.py"),
+    ]
+
+
+def _probe_task(idx):
+    name, scn, tid, suffix = probe_scenarios()[idx]
+    out = []
+    for k in range(200):
+        ch = S.PreemptAt(tid, suffix, k)
+        res = LC.run_real(scn, ch, line_mode=True)
+        if not ch.fired:
+            break
+        out.append(_record(scn, res, False, "probe:" + name))
     return out
 
 
@@ -389,9 +504,9 @@ def run(ctx):
     quick = ctx.quick
     fixed = fixed_scenarios()
     bound = 2 if quick else 3   # quick: <= 1 complete, <= 2 capped; thorough: <= 2 complete, <= 3 capped
-    per_scn = 2500 if quick else 60000   # cap on the runs per fixed scenario (spread over the first-level subtrees)
+    per_scn = 1200 if quick else 30000   # cap on the runs per fixed scenario (spread over the first-level subtrees)
     n_rand_tasks = 32 if quick else 256
-    rand = [(ctx.rng.getrandbits(48), 40 if quick else 150, False) for _ in range(n_rand_tasks)]
+    rand = [(ctx.rng.getrandbits(48), 30 if quick else 150, False) for _ in range(n_rand_tasks)]
     line = [(ctx.rng.getrandbits(48), 3 if quick else 15, True) for _ in range(16 if quick else 96)]
     ctx.assumptions += [
         "threads switch only at the yield points of harness/sched.py (sync points always; every source line of the five rich modules in "
@@ -422,6 +537,9 @@ def run(ctx):
             ctx.note(f"explore-bound{b}-subtrees-cut-by-cap", n_capped)
             ctx.note(f"explore-bound{b}-subtrees-complete", len(tasks) - n_capped)
             ctx.flush()
+        for recs in pool.imap(_probe_task, range(len(probe_scenarios())), chunksize=1):
+            for rec in recs:
+                _absorb(ctx, rec)
         for recs in pool.imap(_random_task, rand + line, chunksize=1):
             for rec in recs:
                 _absorb(ctx, rec)
